@@ -801,6 +801,44 @@ pub fn build(seed: u64, size: usize) -> Pool {
             }
         }
     }
+    // (m) floats that compare equal but are different bit patterns, and the reverse: +0.0 / -0.0
+    //     coordinates (a float-keyed cache using `==` confuses them), NaNs with different payloads
+    {
+        fam += 1;
+        let z = [0.0f64, -0.0];
+        for lon in z {
+            for lat in z {
+                for r in [0, 2, 7, 15] {
+                    pushf(&mut ops, Op::LonLatToCell { lon: F::of(lon), lat: F::of(lat), res: r }, 255, fam);
+                }
+                pushf(&mut ops, Op::FromLonLat { lon: F::of(lon), lat: F::of(lat) }, 255, fam);
+                pushf(&mut ops, Op::ToLonLat { theta: F::of(lon), phi: F::of(lat) }, 255, fam);
+                pushf(&mut ops, Op::FaceToIj { x: F::of(lon), y: F::of(lat) }, 255, fam);
+                pushf(&mut ops, Op::CoordXform { x: F::of(lon), y: F::of(lat), z: F::of(1.0) }, 255, fam);
+            }
+            pushf(&mut ops, Op::Authalic { fwd: true, phi: F::of(lon) }, 255, fam);
+            pushf(&mut ops, Op::Authalic { fwd: false, phi: F::of(lon) }, 255, fam);
+            pushf(&mut ops, Op::LonLatToCell { lon: F::of(lon), lat: F::of(45.0), res: 9 }, 255, fam);
+            pushf(&mut ops, Op::LonLatToCell { lon: F::of(90.0), lat: F::of(lon), res: 9 }, 255, fam);
+        }
+        fam += 1;
+        for origin in [0u8, 5, 11] {
+            for (x, y) in [(0.0f64, 0.0f64), (-0.0, 0.0), (0.0, -0.0), (-0.0, -0.0), (0.1, 0.0), (0.1, -0.0), (0.0, 0.1), (-0.0, 0.1)] {
+                pushf(&mut ops, Op::Inverse { t: Target::Tl, x: F::of(x), y: F::of(y), origin }, origin, fam);
+            }
+            for (t, p) in [(0.0f64, 0.0f64), (-0.0, 0.0), (0.0, 0.3), (-0.0, 0.3), (PI, 0.3), (-PI, 0.3)] {
+                pushf(&mut ops, Op::Forward { t: Target::Tl, theta: F::of(t), phi: F::of(p), origin }, origin, fam);
+            }
+        }
+        fam += 1;
+        let nans = [f64::NAN, -f64::NAN, f64::from_bits(0x7ff8_0000_0000_0001), f64::from_bits(0x7ff0_0000_0000_0001), f64::INFINITY, f64::NEG_INFINITY];
+        for v in nans {
+            ops.push(PoolOp { op: Op::LonLatToCell { lon: F::of(v), lat: F::of(10.0), res: 5 }, group: 255, poison: Some("coordinate_out_of_range".into()), cheap: false, family: fam });
+            ops.push(PoolOp { op: Op::LonLatToCell { lon: F::of(10.0), lat: F::of(v), res: 5 }, group: 255, poison: Some("coordinate_out_of_range".into()), cheap: false, family: fam });
+            ops.push(PoolOp { op: Op::FromLonLat { lon: F::of(v), lat: F::of(0.0) }, group: 255, poison: Some("coordinate_out_of_range".into()), cheap: false, family: fam });
+        }
+        pushf(&mut ops, Op::LonLatToCell { lon: F::of(10.0), lat: F::of(10.0), res: 5 }, 255, fam);
+    }
     // (j) list-valued arguments: the same elements in another order, rotated, reversed, with a
     //     repeated closing element (an order-insensitive key or hash would confuse them)
     for _ in 0..n(16) {
